@@ -764,6 +764,32 @@ Section Lang.
     exists vs, Segments (scan_uri U uri) p vs.
 End Lang.
 
+(* names of the groups of a route, in declaration order *)
+Fixpoint grp_names (ps : list part) : list (list Z) :=
+  match ps with
+  | [] => []
+  | PLit _ :: ps' => grp_names ps'
+  | PGrp nm _ :: ps' => nm :: grp_names ps'
+  end.
+
+(* the converters applied, in order, to the segments *)
+Fixpoint convert_segs (U : uclass) (cvs : list (list Z * conv))
+         (vs : list (list Z)) : outcome (list (list Z * value)) :=
+  match cvs, vs with
+  | [], [] => Ok []
+  | (g, cv) :: cvs', v :: vs' =>
+      match apply_conv U cv v with
+      | CVal x =>
+          match convert_segs U cvs' vs' with
+          | Ok l => Ok ((g, x) :: l)
+          | Raised e => Raised e
+          end
+      | CRaise => Raised "raise"
+      | CUnknown => Raised "unknown"
+      end
+  | _, _ => Raised "unknown"
+  end.
+
 (* ------------------------------------------------- correspondence entries *)
 Definition tbl_class (digits : list (Z * Z)) (words spaces : list Z) : uclass :=
   mkU (fun c => existsb (fun d => Z.eqb c (fst d)) digits)
